@@ -501,3 +501,46 @@ if __name__ == '__main__':
         p = gen_program(s)
         print('//', s)
         print(unparse(p))
+
+
+def gen_render_program(seed, n=6):
+    """nested acyclic values (arrays of objects of arrays ..., field names with shared prefixes, empty ones, every parent kind) and prints of them"""
+    r = random.Random(seed)
+    es = []
+    vals = []          # (name, kind)
+    fnames = ['a', 'aa', 'ab', 'b', 'B', '_a', 'a1', 'z', 'Z', 'ba', 'a_', 'x9']
+
+    def atom():
+        c = r.random()
+        if vals and c < 0.55:
+            return V(r.choice(vals)[0])
+        if c < 0.7:
+            return I(r.choice([0, -1, 7, 2147483647, -2147483648, 42]))
+        if c < 0.8:
+            return B(r.random() < 0.5)
+        return N()
+    for k in range(n):
+        name = 'v%d' % k
+        if r.random() < 0.45:
+            size = r.choice([0, 1, 2, 3])
+            es.append(Let(name, Arr(I(size), atom())))
+            for _ in range(r.randint(0, 2)):
+                if size > 0 and vals:
+                    es.append(SIx(V(name), I(r.randint(0, size - 1)), atom()))
+            vals.append((name, 'arr'))
+        else:
+            fs = r.sample(fnames, r.randint(0, 4))
+            parent = atom() if r.random() < 0.6 else N()
+            members = [Let(f, atom()) for f in fs]
+            if r.random() < 0.3:
+                members.append(Fun('m', [], I(1)))
+            r.shuffle(members)
+            es.append(Let(name, Obj(parent, members)))
+            if fs and vals and r.random() < 0.5:
+                es.append(SF(V(name), r.choice(fs), atom()))
+            vals.append((name, 'obj'))
+        if r.random() < 0.5:
+            es.append(Pr('~\\n', [V(name)]))
+    k = r.randint(1, 3)
+    es.append(Pr(' | '.join(['~'] * k) + '\\n', [V(r.choice(vals)[0]) for _ in range(k)]))
+    return Top(es)
